@@ -133,7 +133,13 @@ class Real:
         d.n, d.m = n, m
         d.fx, d.fy, d.gx, d.gy = sp(np.reshape(c['fx'], (n, n))), sp(np.reshape(c['fy'], (n, m))), \
             sp(np.reshape(c['gx'], (m, n))), sp(np.reshape(c['gy'], (m, m)))
-        d.Tf = np.array(c['Tf'], float)
+        # the time-constant vector of a live system is one persistent array that Model.set / alter update IN PLACE;
+        # the injection keeps the same array object whenever the size allows, so anything EIG remembers about it
+        # between calls is exercised with changed contents
+        if isinstance(d.Tf, np.ndarray) and d.Tf.dtype == float and len(d.Tf) == n:
+            d.Tf[:] = np.array(c['Tf'], float)
+        else:
+            d.Tf = np.array(c['Tf'], float)
         d.x_name = ['x%d' % i for i in range(n)]
 
     def calc_as(self, c):
@@ -464,8 +470,37 @@ def stock(ctx, case, vneg, vpf, sweep=True):
     r = {'A': np.array(e.As, dtype=float), 'mu': mu, 'N': N, 'pf': pf, 'assoc': assoc}
     for key, what in oracle_pf({'n': k}, r):
         _fail(ctx, key, '%s: %s' % (case, what), c)
+    rerun_after_alter(ctx, ss, case)
     if sweep:
         sweep_check(ctx, ss, case)
+
+
+def rerun_after_alter(ctx, ss, case):
+    """EIG.run, alter a time constant through the public alter(), EIG.run again on the same System: the second
+    state matrix is T^-1 (fx - fy gy^-1 gx) with the CURRENT time constants"""
+    if not (hasattr(ss, 'GENROU') and ss.GENROU.n and ss.TDS.initialized):
+        return
+    e, d = ss.EIG, ss.dae
+    c = {'kind': 'rerun-after-alter', 'case': case}
+    a = int(ss.GENROU.omega.a[0])
+    m0 = float(ss.GENROU.M.v[0])
+    ss.GENROU.alter('M', ss.GENROU.idx.v[0], float(ss.GENROU.M.vin[0]) * 0.25)
+    try:
+        e.run()
+    except Exception as ex:   # noqa
+        _fail(ctx, 'eig-run-raises', 'second EIG.run raised %s on %s' % (type(ex).__name__, case), c)
+        return
+    finally:
+        pass
+    ctx.case('rerun:' + case, {'case': case, 'M_before': m0, 'M_after': float(ss.GENROU.M.v[0]), 'Tf': float(d.Tf[a])})
+    ctx.count('rerun_after_alter')
+    if float(d.Tf[a]) != float(ss.GENROU.M.v[0]):
+        ctx.count('rerun:Tf-not-updated')     # C11's subject; the oracle below uses dae.Tf as it is
+    cc = {'n': d.n, 'm': d.m, 'fx': dense_sp(d.fx).ravel(), 'fy': dense_sp(d.fy).ravel(), 'gx': dense_sp(d.gx).ravel(),
+          'gy': dense_sp(d.gy).ravel(), 'Tf': np.array(d.Tf, float)}
+    for key, what in oracle_as(cc, {'As': np.array(e.As, dtype=float), 'names': []}):
+        _fail(ctx, key, '%s, second run after alter(M): %s' % (case, what), c)
+    ss.GENROU.alter('M', ss.GENROU.idx.v[0], float(ss.GENROU.M.vin[0]) * 4.0)
 
 
 def sweep_check(ctx, ss, case):
